@@ -588,5 +588,12 @@ pub fn shrink_candidates(s: &Scn) -> Vec<Scn> {
             out.push(c);
         }
     }
+    out.retain(|c| {
+        c.spec
+            .states
+            .iter()
+            .flatten()
+            .all(simmodel::gen::merged_is_in_domain)
+    });
     out
 }
